@@ -1,6 +1,8 @@
 import PhononModel.Lemmas.Dataset
 import PhononModel.Lemmas.Precision
+import PhononModel.Lemmas.YamlAst
 import PhononModel.Model.LoadPriority
+import PhononModel.Gen.Formats
 import Mathlib.Tactic.FieldSimp
 import Mathlib.Tactic.Positivity
 import Mathlib.Tactic.Ring
@@ -16,7 +18,7 @@ covered by the differential round trips of `./check C16`.
 -/
 set_option linter.unusedSectionVars false
 namespace PhononModel.C16
-open PhononModel.DS PhononModel.LP PhononModel.Prec
+open PhononModel.DS PhononModel.LP PhononModel.Prec PhononModel.YA
 
 section dataset
 variable {n : Nat} {α : Type} [OfNat α 0] [DecidableEq α]
@@ -127,6 +129,61 @@ example : WF exD := by
   · intro e he; simp [exD] at he
     rcases he with rfl | rfl <;> rfl
 
+
+/-! ### the yaml blocks as abstract syntax: writer then reader is the identity
+
+for every dataset of either type — with or without forces, with or without energies — and every
+atom record (extended symbol, mass, collinear or vector moment). -/
+section yaml
+variable {α : Type} {n : Nat}
+
+theorem ofYamlEntry_toYamlEntry (x : Entry1 n α) : ofYamlEntry n (toYamlEntry x) = some x := by
+  obtain ⟨⟨num, disp, forces⟩, en⟩ := x
+  unfold ofYamlEntry toYamlEntry
+  have h : 1 ≤ num.1 + 1 ∧ num.1 + 1 - 1 < n := ⟨by omega, by simp [num.2]⟩
+  simp only [h, and_self, dite_true, listToVec_vecToList]
+  cases forces with
+  | none => simp
+  | some f => simp [listToField_fieldToList]
+
+theorem yaml_type1_roundtrip (d : List (Entry1 n α)) : ofYaml1 n (toYaml1 d) = some d := by
+  induction d with
+  | nil => rfl
+  | cons x xs ih =>
+    simp only [toYaml1, List.map_cons, ofYaml1, ofYamlEntry_toYamlEntry]
+    have : ofYaml1 n (List.map toYamlEntry xs) = some xs := ih
+    simp [this]
+
+theorem yaml_type2_roundtrip (x : Data2 n α) : ofYaml2 n (toYaml2 x) = some x := by
+  obtain ⟨⟨ds, fs⟩, en⟩ := x
+  unfold ofYaml2 toYaml2
+  simp only [fieldsOf_map]
+  cases fs with
+  | none => rfl
+  | some fs => simp [fieldsOf_map]
+
+theorem yaml_point_roundtrip (a : Atom α) :
+    ofYamlPoint (toYamlPoint a) = some a := by
+  obtain ⟨sym, formal, c, mass, mom⟩ := a
+  unfold ofYamlPoint toYamlPoint
+  simp only [listToVec_vecToList]
+  by_cases h : sym = formal
+  · subst h
+    cases mom with
+    | none => simp
+    | some m => cases m <;> simp [listToVec_vecToList]
+  · cases mom with
+    | none => simp [h]
+    | some m => cases m <;> simp [h, listToVec_vecToList]
+
+end yaml
+
+/-- non-vacuity: an entry with forces and energy, atom index 2 of 2, survives; the written
+`atom:` is 1-based -/
+example : (toYamlEntry (n := 2) (α := Int) ⟨⟨1, fun k => if k = 0 then 3 else 0, some fun _ _ => 7⟩, some 5⟩).atom = 2 := rfl
+/-- a record whose `atom:` is 0 (not 1-based) is rejected by the reader -/
+example : (ofYamlEntry 2 (⟨0, [1, 2, 3], none, none⟩ : YEntry Int)).isNone = true := rfl
+
 /-! ### the decision table of `phonopy.load` -/
 
 theorem load_priority_table (p : Present) :
@@ -168,6 +225,32 @@ theorem load_priority_table (p : Present) :
   all_goals simp only [load, fcSource, datasetSource, nacSource, nacFactor, calculator]
   all_goals intros
   all_goals first | rfl | simp_all
+
+
+/-- **what is recomputed on load**: force constants that are read are converted to the requested
+layout and never symmetrised; force constants are produced only when nothing provides them, in
+the requested layout, with the requested solver (default: traditional), symmetrised iff
+`symmetrize_fc`; a type-2 dataset with the traditional solver makes `load` raise. -/
+theorem load_recompute_table (p : Present) (o : Opts) :
+    -- read force constants
+    ((load p).fc ≠ .none → (load p).fc ≠ .produced →
+      (recompute p o).fcCompact = some o.isCompactFc ∧ (recompute p o).produced = false ∧
+      (recompute p o).symmetrized = false ∧ (recompute p o).raises = false ∧
+      ((recompute p o).converted = true ↔ sourceLayout o (load p).fc ≠ some o.isCompactFc)) ∧
+    -- produced force constants
+    ((load p).fc = .produced → (o.datasetType2 = false ∨ o.fcCalculator.getD .traditional ≠ .traditional) →
+      (recompute p o).produced = true ∧ (recompute p o).fcCompact = some o.isCompactFc ∧
+      (recompute p o).symmetrized = o.symmetrizeFc ∧ (recompute p o).converted = false ∧
+      (recompute p o).solver = some (o.fcCalculator.getD .traditional) ∧ (recompute p o).raises = false) ∧
+    ((load p).fc = .produced → o.datasetType2 = true → o.fcCalculator.getD .traditional = .traditional →
+      (recompute p o).raises = true ∧ (recompute p o).produced = false) ∧
+    -- nothing to load, nothing to compute
+    ((load p).fc = .none → (recompute p o).fcCompact = none ∧ (recompute p o).produced = false ∧ (recompute p o).raises = false) := by
+  have hl : (load p).fc = fcSource p := rfl
+  rw [hl]
+  unfold recompute
+  cases h : fcSource p <;> cases hs : o.fcCalculator.getD .traditional <;> cases ht : o.datasetType2 <;>
+    simp_all [sourceLayout]
 
 /-- a yaml file that contains force constants makes `force_constants_filename=` a no-op,
 whereas the docstring lists the filename argument first -/
@@ -252,6 +335,38 @@ example : fits 22 15 (99999 : Rat) = true := by decide +kernel
 example : fits 22 15 (100000 : Rat) = false := by decide +kernel
 example : printK 2 (1/8 : Rat) = 12 ∧ printK 2 (3/8 : Rat) = 38 ∧ printK 0 (5/2 : Rat) = 2 := by decide +kernel
 
+/-! ### the formats the writers actually use (`Gen/Formats.lean`, regenerated from the sources) -/
+
+/-- a field of format `f` holding `x` cannot run into its left neighbour: there is a separating
+character, or the text leaves a blank in front -/
+def Fmt.ok (f : Gen.Fmt) (x : Rat) : Bool := !f.adjacent || fits f.width f.prec x
+
+/-- no writer of `file_IO.py`, `phonopy_yaml.py`, `atoms.py` puts two number fields back to back -/
+theorem formats_separated : ∀ f ∈ Gen.formats, f.adjacent = false := by decide
+
+/-- … hence no value, of whatever magnitude, fuses with its neighbour -/
+theorem formats_never_fuse (f : Gen.Fmt) (hf : f ∈ Gen.formats) (x : Rat) : Fmt.ok f x = true := by
+  simp [Fmt.ok, formats_separated f hf]
+
+/-- the round-trip error of every field of every writer: half a unit of its last decimal -/
+theorem formats_print_parse (f : Gen.Fmt) (_hf : f ∈ Gen.formats) (x : ℚ) :
+    |parseK f.prec (printK f.prec x) - x| ≤ 1 / (2 * 10 ^ f.prec) :=
+  print_parse_error f.prec x
+
+/-- without a separator (the pinned `("%15.8f" * 6)`, `("%22.15f" * 3)`) a field is safe exactly on
+a value range: decidable from the printed integer -/
+theorem adjacent_ok_iff (f : Gen.Fmt) (x : ℚ) (d : Nat) (ha : f.adjacent = true)
+    (hW : f.width = (if x < 0 then 1 else 0) + (d + 1) + 1 + f.prec + 1) :
+    Fmt.ok f x = true ↔ (printK f.prec x).natAbs / 10 ^ f.prec < 10 ^ (d + 1) := by
+  simp only [Fmt.ok, ha, Bool.not_true, Bool.false_or]
+  exact fits_iff f.width f.prec x d hW
+
+/-- the two formats of the fused-fields defect: `%15.8f` holds |x| < 10⁵ (x ≥ 0) resp. 10⁴ (x < 0) -/
+example : Fmt.ok ⟨"pinned FORCE_SETS type 2", 0, 15, 8, 6, true⟩ (99999.5 : Rat) = true ∧
+    Fmt.ok ⟨"pinned FORCE_SETS type 2", 0, 15, 8, 6, true⟩ (100000 : Rat) = false ∧
+    Fmt.ok ⟨"pinned FORCE_SETS type 2", 0, 15, 8, 6, true⟩ (-10000 : Rat) = false ∧
+    Fmt.ok ⟨"pinned FORCE_CONSTANTS", 0, 22, 15, 3, true⟩ (-9999.5 : Rat) = true := by decide +kernel
+
 end PhononModel.C16
 
 #print axioms PhononModel.C16.type2_of_type1_roundtrip
@@ -260,7 +375,11 @@ end PhononModel.C16
 #print axioms PhononModel.C16.forces_in_dataset_iff
 #print axioms PhononModel.C16.forces_in_dataset_convert
 #print axioms PhononModel.C16.forces_in_dataset_convert_counterexample
+#print axioms PhononModel.C16.yaml_type1_roundtrip
+#print axioms PhononModel.C16.yaml_type2_roundtrip
+#print axioms PhononModel.C16.yaml_point_roundtrip
 #print axioms PhononModel.C16.load_priority_table
+#print axioms PhononModel.C16.load_recompute_table
 #print axioms PhononModel.C16.load_doc_priority_mismatch
 #print axioms PhononModel.C16.load_save_default
 #print axioms PhononModel.C16.load_save_fixpoint
@@ -268,3 +387,7 @@ end PhononModel.C16
 #print axioms PhononModel.C16.reload_preserves
 #print axioms PhononModel.C16.print_parse_error
 #print axioms PhononModel.C16.print_parse_fixpoint
+#print axioms PhononModel.C16.formats_separated
+#print axioms PhononModel.C16.formats_never_fuse
+#print axioms PhononModel.C16.formats_print_parse
+#print axioms PhononModel.C16.adjacent_ok_iff
